@@ -227,7 +227,7 @@ func (l AL) step(o Op) (AL, Out) {
 
 var starSrc = `
 def d_insert(x, k, v): x[k] = v
-def d_lookup(x, k): return (k in x, x.get(k))
+def d_lookup(x, k): return (k in x, x.get(k, -5), x.get(k))
 def d_index(x, k): return x[k]
 def d_delete(x, k): return x.pop(k)
 def d_delete_dflt(x, k, m): return x.pop(k, m)
@@ -533,6 +533,14 @@ func (s *Subject) key(id int) starlark.Value {
 	return k
 }
 
+// mkVal: stored values are positive ints, 0 stands for None (a legitimate stored value).
+func mkVal(n int) starlark.Value {
+	if n == 0 {
+		return starlark.None
+	}
+	return starlark.MakeInt(n)
+}
+
 func val(v starlark.Value) int {
 	if v == starlark.None || v == nil {
 		return 0
@@ -607,14 +615,14 @@ func (s *Subject) keySet0(ks []int) *starlark.Set {
 func (s *Subject) pairList(l [][2]int) *starlark.List {
 	el := make([]starlark.Value, len(l))
 	for i, p := range l {
-		el[i] = starlark.Tuple{s.key(p[0]), starlark.MakeInt(p[1])}
+		el[i] = starlark.Tuple{s.key(p[0]), mkVal(p[1])}
 	}
 	return starlark.NewList(el)
 }
 func (s *Subject) pairDict(l [][2]int) *starlark.Dict {
 	r := new(starlark.Dict)
 	for _, p := range l {
-		r.SetKey(s.key(p[0]), starlark.MakeInt(p[1]))
+		r.SetKey(s.key(p[0]), mkVal(p[1]))
 	}
 	return r
 }
@@ -647,10 +655,10 @@ func (s *Subject) applyDict(o Op) Out {
 	switch o.Op {
 	case "insert":
 		if star {
-			_, err := s.call("d_insert", d, s.key(o.K), starlark.MakeInt(o.V))
+			_, err := s.call("d_insert", d, s.key(o.K), mkVal(o.V))
 			must(err)
 		} else {
-			must(d.SetKey(s.key(o.K), starlark.MakeInt(o.V)))
+			must(d.SetKey(s.key(o.K), mkVal(o.V)))
 		}
 		return Out{T: "none"}
 	case "lookup":
@@ -659,13 +667,20 @@ func (s *Subject) applyDict(o Op) Out {
 			must(err)
 			t := r.(starlark.Tuple)
 			found := bool(t[0].(starlark.Bool))
-			if found != (t[1] != starlark.None) {
-				panic(violation{msg: "`in` and get disagree"})
+			if found != (val(t[1]) != -5) {
+				panic(violation{msg: "`in` and get(k, default) disagree"})
 			}
-			if _, err := s.call("d_index", d, s.key(o.K)); (err == nil) != found {
-				panic(violation{msg: "`in` and d[k] disagree"})
+			if found && t[2] != t[1] || !found && t[2] != starlark.None {
+				panic(violation{msg: "get(k) and get(k, default) disagree"})
 			}
-			return Out{T: "val", Found: found, V: val(t[1])}
+			iv, err := s.call("d_index", d, s.key(o.K))
+			if (err == nil) != found || (found && iv != t[1]) {
+				panic(violation{msg: "`in` / get and d[k] disagree"})
+			}
+			if !found {
+				return Out{T: "val"}
+			}
+			return Out{T: "val", Found: true, V: val(t[1])}
 		}
 		v, found, err := d.Get(s.key(o.K))
 		must(err)
@@ -721,7 +736,7 @@ func (s *Subject) applyDict(o Op) Out {
 		return Out{T: "kv", Found: true, K: k.(*HK).id, V: val(v)}
 	case "setdefault":
 		if star {
-			r, err := s.call("d_setdefault", d, s.key(o.K), starlark.MakeInt(o.V))
+			r, err := s.call("d_setdefault", d, s.key(o.K), mkVal(o.V))
 			must(err)
 			return Out{T: "val", Found: true, V: val(r)}
 		}
@@ -730,7 +745,7 @@ func (s *Subject) applyDict(o Op) Out {
 		if found {
 			return Out{T: "val", Found: true, V: val(v)}
 		}
-		must(d.SetKey(s.key(o.K), starlark.MakeInt(o.V)))
+		must(d.SetKey(s.key(o.K), mkVal(o.V)))
 		return Out{T: "val", Found: true, V: o.V}
 	case "update":
 		if star {
@@ -746,14 +761,14 @@ func (s *Subject) applyDict(o Op) Out {
 			}
 		} else {
 			for _, p := range o.L {
-				must(d.SetKey(s.key(p[0]), starlark.MakeInt(p[1])))
+				must(d.SetKey(s.key(p[0]), mkVal(p[1])))
 			}
 		}
 		return Out{T: "none"}
 	case "dictunion":
 		y := new(starlark.Dict)
 		for _, p := range o.L {
-			must(y.SetKey(s.key(p[0]), starlark.MakeInt(p[1])))
+			must(y.SetKey(s.key(p[0]), mkVal(p[1])))
 		}
 		s.lastY = y
 		if star {
@@ -1354,8 +1369,8 @@ func shrink(m *Mismatch, probe []int) *Mismatch {
 type symbol func(pos int) Op
 
 var (
-	exhUpdD  = [][2]int{{1, 91}, {3, 93}, {1, 95}}
-	exhUniD  = [][2]int{{4, 94}, {0, 90}}
+	exhUpdD  = [][2]int{{1, 91}, {3, 0}, {1, 95}}
+	exhUniD  = [][2]int{{4, 0}, {0, 90}}
 	exhUpdS  = [][2]int{{3, 0}, {0, 0}, {3, 0}}
 	exhUni   = []int{4, 1, 4}
 	exhInt   = []int{2, 0, 2, 3}
@@ -1370,7 +1385,7 @@ func alphabet(tkind, route string, core bool) []symbol {
 	add := func(f symbol) { a = append(a, f) }
 	for k := 0; k < 5; k++ {
 		k := k
-		add(func(p int) Op { return Op{Op: "insert", K: k, V: vv(tkind, p)} })
+		add(func(p int) Op { return Op{Op: "insert", K: k, V: vvk(tkind, p, k, 3)} })
 		add(func(p int) Op {
 			if tkind == "set" && p&1 == 1 {
 				return Op{Op: "discard", K: k}
@@ -1386,7 +1401,7 @@ func alphabet(tkind, route string, core bool) []symbol {
 	if tkind == "dict" {
 		for k := 0; k < 5; k++ {
 			k := k
-			add(func(p int) Op { return Op{Op: "setdefault", K: k, V: vv(tkind, p)} })
+			add(func(p int) Op { return Op{Op: "setdefault", K: k, V: vvk(tkind, p, k+1, 4)} })
 		}
 		add(func(p int) Op { return Op{Op: "update", L: exhUpdD} })
 		add(func(p int) Op { return Op{Op: "dictunion", L: exhUniD} })
@@ -1405,6 +1420,16 @@ func alphabet(tkind, route string, core bool) []symbol {
 
 func vv(tkind string, pos int) int {
 	if tkind == "set" {
+		return 0
+	}
+	return pos + 1
+}
+
+// vvk: the value an exhaustive insert / setdefault symbol stores: None (0) among the stored values
+// for a third of the (position, key) pairs, so that every value-returning operation
+// (get, pop, popitem, setdefault, d[k]) also meets keys present with the value None.
+func vvk(tkind string, pos, k, mod int) int {
+	if tkind == "set" || (pos+k)%mod == 0 {
 		return 0
 	}
 	return pos + 1
@@ -1762,8 +1787,15 @@ func randomHistory(r *hx.Rand, tkind, route, dist string, nops int) History {
 				k = pickLive() // update in place
 			}
 			o = Op{Op: "insert", K: k, V: vv(tkind, i)}
+			if r.Intn(4) == 0 {
+				o.V = 0 // None is a stored value like any other
+			}
 			if r.Intn(8) == 0 {
 				o.Op = "setdefault"
+				if r.Intn(2) == 0 {
+					o.K = pickLive() // setdefault on a present key (its value may be None)
+					o.V = vv(tkind, i)
+				}
 			}
 			if !live[k] {
 				live[k] = true
@@ -1810,7 +1842,7 @@ func randomHistory(r *hx.Rand, tkind, route, dist string, nops int) History {
 			case tkind == "dict":
 				ks := coll(1 + r.Intn(200))
 				for _, k := range ks {
-					o.L = append(o.L, [2]int{k, 100000 + i})
+					o.L = append(o.L, [2]int{k, (100000 + i) * min(1, (k+i)%4)})
 					if !live[k] {
 						live[k] = true
 						liveList = append(liveList, k)
@@ -2107,7 +2139,7 @@ func sampleHistory(r *hx.Rand, id, maxops int) History {
 		var o Op
 		switch {
 		case x < 40:
-			o = Op{Op: "insert", K: r.Intn(nkeys), V: vv(h.TKind, i)}
+			o = Op{Op: "insert", K: r.Intn(nkeys), V: vv(h.TKind, i) * min(1, r.Intn(4))}
 			live = append(live, o.K)
 		case x < 65:
 			k := r.Intn(nkeys)
@@ -2133,7 +2165,10 @@ func sampleHistory(r *hx.Rand, id, maxops int) History {
 		case x < 78:
 			o = Op{Op: "popfirst"}
 		case x < 84:
-			o = Op{Op: "setdefault", K: r.Intn(nkeys), V: vv(h.TKind, i)}
+			o = Op{Op: "setdefault", K: r.Intn(nkeys), V: vv(h.TKind, i) * min(1, r.Intn(5))}
+			if len(live) > 0 && r.Intn(2) == 0 {
+				o.K = live[r.Intn(len(live))]
+			}
 			live = append(live, o.K)
 		case x < 86:
 			o = Op{Op: "clear"}
@@ -2142,7 +2177,7 @@ func sampleHistory(r *hx.Rand, id, maxops int) History {
 			if h.TKind == "dict" {
 				o = Op{Op: []string{"update", "dictunion"}[r.Intn(2)], Form: r.Intn(2)}
 				for _, k := range ks {
-					o.L = append(o.L, [2]int{k, 50 + i})
+					o.L = append(o.L, [2]int{k, (50 + i) * min(1, r.Intn(4))})
 				}
 			} else {
 				o = Op{Op: []string{"update", "setunion", "setinter", "setdiff", "setsymdiff"}[r.Intn(5)], Ks: ks, Form: r.Intn(2)}
@@ -2286,8 +2321,8 @@ func bigCase(r *hx.Rand, tkind, route string) History {
 		order[i], order[j] = order[j], order[i]
 	}
 	v := func(i int) int {
-		if tkind == "set" {
-			return 0
+		if tkind == "set" || i%5 == 2 {
+			return 0 // None among the stored values
 		}
 		return i + 1
 	}
@@ -2366,7 +2401,7 @@ func bigCase(r *hx.Rand, tkind, route string) History {
 		for i, ks := range operands {
 			var l [][2]int
 			for _, k := range ks {
-				l = append(l, [2]int{k, 1000 + i})
+				l = append(l, [2]int{k, (1000 + i) * min(1, (k+i)%3)})
 			}
 			name := []string{"update", "dictunion"}[i%2]
 			form := (i / 2) % 2
@@ -2442,6 +2477,13 @@ var progKeys = []string{`"a"`, `"b"`, `"c"`, `"key_number_four_is_long"`, `"anot
 var progKwKeys = []int{0, 1, 2, 5}
 var progKwNames = map[int]string{0: "a", 1: "b", 2: "c", 5: "e"}
 
+func lit(v int) string {
+	if v == 0 {
+		return "None"
+	}
+	return fmt.Sprint(v)
+}
+
 func programs(n, nops int, seed uint64) {
 	root := hx.NewRand(seed)
 	mism := 0
@@ -2465,7 +2507,7 @@ func programs(n, nops int, seed uint64) {
 				if i > 0 {
 					t += ", "
 				}
-				t += fmt.Sprintf("(%s, %d)", progKeys[p[0]], p[1])
+				t += fmt.Sprintf("(%s, %s)", progKeys[p[0]], lit(p[1]))
 			}
 			return t + "]"
 		}
@@ -2494,11 +2536,19 @@ func programs(n, nops int, seed uint64) {
 			if tkind == "dict" {
 				switch r.Intn(10) {
 				case 0, 1, 2:
-					o, line = Op{Op: "insert", K: k, V: v}, fmt.Sprintf("x[%s] = %d", progKeys[k], v)
+					if r.Intn(4) == 0 {
+						v = 0
+					}
+					o, line = Op{Op: "insert", K: k, V: v}, fmt.Sprintf("x[%s] = %s", progKeys[k], lit(v))
 				case 3:
 					o, line = Op{Op: "delete", K: k}, fmt.Sprintf("x.pop(%s, None)", progKeys[k])
 				case 4:
-					o, line = Op{Op: "setdefault", K: k, V: v}, fmt.Sprintf("x.setdefault(%s, %d)", progKeys[k], v)
+					if r.Intn(4) == 0 {
+						// no default: stores None when the key is absent
+						o, line = Op{Op: "setdefault", K: k, V: 0}, fmt.Sprintf("x.setdefault(%s)", progKeys[k])
+					} else {
+						o, line = Op{Op: "setdefault", K: k, V: v}, fmt.Sprintf("x.setdefault(%s, %d)", progKeys[k], v)
+					}
 				case 5:
 					o, line = Op{Op: "popfirst"}, "x.popitem() if x else None"
 				case 6: // update with pairs and keyword arguments: pairs first, then kwargs in the order written
